@@ -17,3 +17,27 @@ PROLOGUE = ['set_config', 'router.initiate', 'validate_routes', 'init_storage']
 EPILOGUE = ['reset_config', 'store.reset']
 
 STORE_STATE = ['app', 'orders', 'completed_trades', 'logs', 'exchanges', 'candles', 'positions', 'tickers', 'trades', 'orderbooks', 'vars']
+
+
+# module-level mutable objects on the session path that are known and accounted for (how each is kept from leaking between sessions)
+MODULE_STATE = {
+    'jesse.modes.backtest_mode.timeframe_to_one_minutes': 'constant table, never written',
+    'jesse.helpers.CACHED_CONFIG': 'memo of get_config: cleared by set_config / reset_config (get_config.*, set_config.*)',
+    'jesse.config.config': 'installed from the arguments by set_config, restored by reset_config (set_config.*, prologue.*)',
+    'jesse.config.backup_config': 'copy used by reset_config',
+    'jesse.routes.router': 'router.initiate resets and installs the routes (router.*)',
+    'jesse.store.store': 'store.reset replaces every state object (store-reset.*)',
+    'jesse.services.api.api': 'exchange-driver table: recorded finding C11-drivers-frozen',
+    'jesse.services.cache.cache': 'file cache, not used by the isolated backtest',
+    'jesse.services.color._generated_colors': 'chart colours, not part of the result',
+    'jesse.services.db.database': 'not opened by the isolated backtest',
+    'jesse.services.env.ENV_VALUES': 'read-only environment values',
+    'jesse.services.logger.LOGGERS': 'file loggers, not part of the result',
+    'jesse.services.multiprocessing.process_manager': 'dashboard only',
+    'jesse.services.notifier.MSG_QUEUE': 'live mode only',
+    'jesse.services.redis.async_redis': 'dashboard only',
+    'jesse.services.redis.sync_redis': 'dashboard only',
+    'jesse.services.web.fastapi_app': 'dashboard only',
+    'jesse.services.web.origins': 'dashboard only',
+}
+MUTATORS = ('append', 'extend', 'add', 'update', 'clear', 'pop', 'popitem', 'setdefault', 'insert', 'remove', 'discard', 'appendleft')
